@@ -85,6 +85,14 @@ M = [
  ("M077", ["C10"], TK + "gsm_shared.py", "AB_TS0 = (0, BurstType.ACCESS, \"01001011011111111001100110101010001111000\")", "AB_TS0 = (0, BurstType.ACCESS, \"01001011011111111001100110101010001111001\")", "AB_TS0 mistyped (detection falls back to TSC 0 anyway; only the generator check can see it)"),
  ("M078", ["C10"], TK + "fake_trx.py", "\t\tif src_trx.ta != 0:\n\t\t\tmsg.toa256 -= src_trx.ta * 256", "\t\tif self.ta != 0:\n\t\t\tmsg.toa256 -= self.ta * 256", "timing advance of the recipient applied instead of the sender's"),
  ("M079", ["C10"], TK + "fake_trx.py", "\t\t\tmsg.tsc_set = ss.tsc_set if ss is not None else 0", "\t\t\tmsg.tsc_set = ss.tsc_set + (ss.bt is BurstType.SYNC) if ss is not None else 0", "sync bursts reported with TSC set 1"),
+ ("M080", ["C09"], TK + "clck_gen.py", "\t\t\tt_next += t_tick\n", "\t\t\tt_next = time.monotonic_ns() + t_tick\n", "deadline measured from the end of the previous handler (drift)"),
+ ("M081", ["C09"], TK + "clck_gen.py", "\t\t\t\tt_next = time.monotonic_ns()\n\t\t\t\tdt = 0", "\t\t\t\tdt = 0", "no resynchronisation after an overrun (catch-up ticks)"),
+ ("M082", ["C09"], TK + "clck_gen.py", "self.clck_src = (self.clck_src + 1) % GSM_HYPERFRAME", "self.clck_src = (self.clck_src + 1) % (GSM_HYPERFRAME + 1)", "frame counter wraps one frame late"),
+ ("M083", ["C09"], TK + "clck_gen.py", "if self.clck_src % self.ind_period == 0:", "if self.clck_src % self.ind_period == self.ind_period - 1:", "indications sent at the wrong residue"),
+ ("M084", ["C09"], TK + "clck_gen.py", "\t\tself.clck_src = self.clck_start\n", "\t\tif not hasattr(self, 'clck_src'):\n\t\t\tself.clck_src = self.clck_start\n", "frame counter not reset by a restart"),
+ ("M085", ["C09"], TK + "clck_gen.py", "\t\t\tfor link in self.clck_links:", "\t\t\tfor link in self.clck_links[:1]:", "indication sent to the first link only"),
+ ("M086", ["C09"], TK + "clck_gen.py", "\t\t\tif dt < 0:", "\t\t\tif dt < -t_tick:", "overruns shorter than a frame are not resynchronised"),
+ ("M087", ["C09"], TK + "clck_gen.py", "\t\tself._breaker.clear()\n", "", "breaker not cleared by stop(): restarted generator never ticks"),
 ]
 
 
